@@ -31,7 +31,7 @@ Import ListNotations.
 
 (** the components a schema lists under engine/processors, segmentors, translators
     (the ones this model knows; the Switcher, always first, is not listed) *)
-Inductive proc_id := PSpeller | PPunctuator | PSelector | PNavigator | PEditor.
+Inductive proc_id := PSpeller | PPunctuator | PSelector | PNavigator | PEditor | PKeyBinder.
 Inductive segm_id := SgAbc | SgPunct | SgFallback.
 Inductive trans_id := TrPunct | TrMain.   (* TrMain = the schema's other translator(s): Section variable [translate_main] of Trans.v *)
 
@@ -41,6 +41,15 @@ Inductive pdef :=
 | PdValue (s : bytes)
 | PdList (l : list bytes)
 | PdMap (commit : option bytes) (pair : option (list bytes)).
+
+(** key_binder/bindings (gear/key_binder.cc): [when], [accept] and one of send / send_sequence
+    (a key sequence), toggle / set_option / unset_option (an option name), select (a schema id) *)
+Inductive kb_when := KwPredicting | KwPaging | KwHasMenu | KwComposing | KwAlways.
+Inductive kb_action :=
+| KaSend (keys : list key)
+| KaToggle (opt : bytes) | KaSet (opt : bytes) | KaUnset (opt : bytes)
+| KaSelect (schema : bytes).
+Record kbinding := mkKb { kb_accept : key; kb_whence : kb_when; kb_act : kb_action }.
 
 Record config := mkCfg {
   cf_fluid : bool;            (* fluid_editor (true) or express_editor (false) *)
@@ -62,6 +71,8 @@ Record config := mkCfg {
   cf_punct_use_space : bool;      (* punctuator/use_space *)
   cf_digit_seps : bytes;          (* punctuator/digit_separators (default ",.:'") *)
   cf_digit_sep_commit : bool;     (* punctuator/digit_separator_action == "commit" *)
+  cf_bindings : list kbinding;    (* key_binder/bindings, in the order of the list (after import_preset/patches) *)
+  cf_kb_guard : bool;             (* source fact: KeyBinder replays the target keys with redirecting_ = true and declines every key while it is set *)
   cf_hist_guard : bool            (* source fact: CommitHistory::Push(composition, input) never reads [last] after a later Push may have popped it *)
 }.
 
@@ -71,11 +82,12 @@ Record state := mkSt {
   st_nav_input : bytes;     (* Navigator::input_ *)
   st_spans : list nat;      (* Navigator::spans_ (sorted vertices) *)
   st_commit : bytes;        (* Session::commit_text_ *)
-  st_odd : list (bool * byte * bool)  (* Punctuator::oddness_: (definition = (full_shape?, key), oddness = 1) *)
+  st_odd : list (bool * byte * bool); (* Punctuator::oddness_: (definition = (full_shape?, key), oddness = 1) *)
+  st_kb_last : Z            (* KeyBinder::last_key_ *)
 }.
 
 Definition st_with_ctx (s : state) (c : context) : state :=
-  mkSt c (st_nav_input s) (st_spans s) (st_commit s) (st_odd s).
+  mkSt c (st_nav_input s) (st_spans s) (st_commit s) (st_odd s) (st_kb_last s).
 
 Section Engine.
 Variable cfg : config.
@@ -340,7 +352,7 @@ Definition format_text (c : context) (text : bytes) : bytes :=
 
 (** [Engine::sink_] -> Session::OnCommit *)
 Definition sink (s : state) (text : bytes) : state :=
-  mkSt (st_ctx s) (st_nav_input s) (st_spans s) (st_commit s ++ text) (st_odd s).
+  mkSt (st_ctx s) (st_nav_input s) (st_spans s) (st_commit s ++ text) (st_odd s) (st_kb_last s).
 
 (** [Context::Commit] with ConcreteEngine::OnCommit *)
 Definition commit (s : state) : state * bool :=
@@ -375,7 +387,7 @@ Definition on_select (s : state) : state :=
         then st_with_ctx s (set_caret_pos c1 (length (cx_input c1)))
         else st_with_ctx s (compose c1)
     end in
-  mkSt (st_ctx s') (st_nav_input s') [] (st_commit s') (st_odd s').
+  mkSt (st_ctx s') (st_nav_input s') [] (st_commit s') (st_odd s') (st_kb_last s').
 
 (** [Context::Select(index)] *)
 Definition select (s : state) (index : N) : state * bool :=
